@@ -9,14 +9,21 @@
     INCLUDE/BINCLUDE/WHILE: hand expansion done by the harness itself (outside the Lean spec).
 Processor layer (tag machine of as.c, Model/Tags.lean, Props/C11_Tags.lean): see c11_tags.py - the construct stream's
 programs also go through the model (driver `c11tag`) and are compared with the real -P output and the SPEC's expansion.
+Long delivered lines (c11_long.py): construct programs whose expanded lines sweep across the sizes of asl's line buffer (every physical
+line short), through the same pipeline as the construct stream, plus long comment-line bodies through the token model.
+Bookkeeping of expansions (c11_nest.py, Spec/Model MacroNest.lean, Props/C11_Nest.lean): many calls of macros with every control
+parameter, call chains, recursion around NESTMAX, empty bodies - the recursion counter and the local-symbol handles.
 """
 import json
 import os
 import re
+import time
 
 from .. import common
 from ..common import log
 from . import c11_tags
+from . import c11_long
+from . import c11_nest
 
 INC = os.path.join(common.REPO, "include")
 
@@ -462,18 +469,11 @@ def encode(nodes, out):
             out.append("E")
 
 
-def gen_program(rng, cs):
-    g = Gen(rng, cs)
-    top = []
-    for _ in range(rng.randrange(1, 5)):
-        if rng.random() < 0.25:
-            top.append(("L", " db %d" % rng.randrange(256)))
-        else:
-            top.append(g.construct([], 1))
-    # a global label defined inside a GLOBALSYMBOLS construct is referenced from outside
+def build_program(top, macros, cs, rng):
+    """source text + driver encoding of a construct tree (macro definitions first, then the top-level nodes)"""
     hdr = [" cpu z80", " org 100h"]
     src = list(hdr)
-    for name, params, defaults, body, gs in g.macros:
+    for name, params, defaults, body, gs in macros:
         src.append("%s macro %s%s" % (name, ",".join("%s=%s" % (p, d) if d != "0" or rng.random() < 0.5 else p + "=0" for p, d in zip(params, defaults)),
                                       ("," if params else "") + "{GLOBALSYMBOLS}" if gs else ""))
         render(body, src)
@@ -483,7 +483,20 @@ def gen_program(rng, cs):
     enc = ["1" if cs else "0"]
     encode(top, enc)
     enc += ["L", hx(" db 255")]
-    return "\n".join(src) + "\n", " ".join(enc), hdr, g.stats
+    return "\n".join(src) + "\n", " ".join(enc), hdr
+
+
+def gen_program(rng, cs):
+    g = Gen(rng, cs)
+    top = []
+    for _ in range(rng.randrange(1, 5)):
+        if rng.random() < 0.25:
+            top.append(("L", " db %d" % rng.randrange(256)))
+        else:
+            top.append(g.construct([], 1))
+    # a global label defined inside a GLOBALSYMBOLS construct is referenced from outside
+    src, enc, hdr = build_program(top, g.macros, cs, rng)
+    return src, enc, hdr, g.stats
 
 
 def canon_p(data):
@@ -588,6 +601,166 @@ def misc_programs(rng, wd, idx):
     b = [" cpu z80", " org 0"] + [' db "<%s|%s>"' % (x, y) for _, x, y in calls] + [" db 4"]
     progs.append(("keyword-empty", "\n".join(a) + "\n", "\n".join(b) + "\n"))
     return progs
+
+
+def first_cell_diff(c1, c2):
+    """short description of the first difference of two canonical code files"""
+    for a, b in zip(c1, c2):
+        if a != b:
+            if a[:4] != b[:4]:
+                return a[:4], b[:4]
+            da, db_ = a[4], b[4]
+            j = next((t for t in range(min(len(da), len(db_))) if da[t] != db_[t]), min(len(da), len(db_)))
+            return ("at %s+%d: %s (%d bytes)" % (a[3], j, da[max(0, j - 2):j + 6].hex(), len(da)),
+                    "at %s+%d: %s (%d bytes)" % (b[3], j, db_[max(0, j - 2):j + 6].hex(), len(db_)))
+    return "%d cells" % len(c1), "%d cells" % len(c2)
+
+
+# --------------------------------------------------------------------------
+# long delivered lines (generators in c11_long.py)
+
+def tok_long_case(rng, cs, L):
+    """one macro whose body is a comment line (free text); the DELIVERED line has exactly L characters, every physical line is short"""
+    np_ = rng.choice([1, 2, 3, 5, 9])
+    names = ["p%d" % (i + 1) if rng.random() < 0.5 else NAME_POOL[i] for i in range(np_)]
+    main = names[0]
+    m = rng.choice([2, 3, 4, 6])
+    parts = [main] * m + [rng.choice(names) for _ in range(rng.randrange(0, 4))] + [rng.choice(["x" + main, main + "9", "ALLARGSx", str(rng.randrange(1000))])
+                                                                                   for _ in range(rng.randrange(0, 4))]
+    rng.shuffle(parts)
+    raw = ";" + "".join(p_ + rng.choice(["+", "-", " ", ",", ".", "|", "<", ")", "  "]) for p_ in parts) + main
+    alpha = "ABCXYZ019+-*/$._#" if not cs else "abcXYZ019+-*/$._#"
+    short = ["".join(rng.choice(alpha) for _ in range(rng.randrange(0, 6))) for _ in range(np_ - 1)]
+    if short and short[-1] == "":
+        short[-1] = "0"
+    # length of the delivered line as a function of len(arg 1): solve by the harness's own count of whole-name occurrences
+    segs = re.findall(r"[A-Za-z0-9]+|[^A-Za-z0-9]", raw)
+    up = (lambda x: x) if cs else (lambda x: x.upper())
+    nm = [up(n) for n in names]
+    fixed, uses = 0, 0
+    for sg in segs:
+        if up(sg) in nm:
+            k = nm.index(up(sg))
+            if k == 0:
+                uses += 1
+            else:
+                fixed += len(short[k - 1])
+        else:
+            fixed += len(sg)
+    room = L - fixed
+    if uses == 0 or room < uses:
+        return None
+    a, rest = divmod(room, uses)
+    if rest:
+        raw += "".join(rng.choice("xyz+-. ") for _ in range(rest - 1)) + "."
+        if re.search(r"[A-Za-z0-9]$", raw[:-rest]) and re.match(r"[A-Za-z0-9]", raw[-rest:]):
+            return None         # the filler would glue onto the last name
+    arg = "".join(rng.choice(alpha) for _ in range(a))
+    return dict(names=names, body=[raw], args=[arg] + short, uses_bs=False)
+
+
+def long_stream(args, tree_stream, asl, bdir, wd, drv_ok, qdict, spec_fail, corr_fail, proof_problems, samples, distinct):
+    d = dict(per_length_programs=0, kinds={}, lengths_hit={}, off_target=0, grow_on_store=0, ascending=0, ascending_lines=0, history_programs=0,
+             tok_cases=0, tok_evaluations=0, longest_delivered=0, longest_physical_nonhistory=0)
+    quick = args.tier == "quick"
+    rng = common.rng_for(args.seed, "C11/long")
+    progs = []
+
+    def add(r, cs, what, want=None):
+        if r is None:
+            return
+        top, macros = r
+        src, enc, hdr = build_program(top, macros, cs, rng)
+        phys = max(len(x) for x in src.split("\n") if not x.startswith(";"))
+        d["longest_physical_nonhistory"] = max(d["longest_physical_nonhistory"], phys)
+
+        def seen(exp_lines, want=want):
+            mx = max(len(x) for x in exp_lines if not x.startswith(b";"))
+            d["longest_delivered"] = max(d["longest_delivered"], mx)
+            if want is not None:
+                if mx == want:
+                    d["lengths_hit"][want] = d["lengths_hit"].get(want, 0) + 1
+                else:
+                    d["off_target"] += 1
+        progs.append((src, enc, hdr, dict(what=what, on_expansion=seen), cs))
+
+    # one program per target length; zone 1: nothing long seen before; zone 2: a physical line of P characters was read before
+    per_len = 2 if quick else 12
+    for zone, hist in ((c11_long.ZONE1, False), (c11_long.ZONE2, True)):
+        for L in zone:
+            for _ in range(per_len):
+                kind = rng.choice(c11_long.KINDS)
+                cs = rng.random() < 0.5
+                P = rng.randrange(1023, 1150) if hist else None
+                add(c11_long.gen_long(rng, cs, L, kind, P), cs, "long %s L=%d history=%s" % (kind, L, P), L)
+                d["per_length_programs"] += 1
+                d["history_programs"] += int(hist)
+                d["kinds"][kind] = d["kinds"].get(kind, 0) + 1
+    # random lengths after random histories (the buffer size in force is whatever the history made it)
+    for _ in range(6 if quick else 300):
+        P = rng.choice([None, rng.randrange(1000, 1700)])
+        L = rng.randrange(1000, 1800)
+        kind = rng.choice(c11_long.KINDS)
+        cs = rng.random() < 0.5
+        add(c11_long.gen_long(rng, cs, L, kind, P), cs, "long %s L=%d history=%s" % (kind, L, P), L)
+        d["kinds"][kind] = d["kinds"].get(kind, 0) + 1
+    # body lines that grow when they are stored (one-letter names, two-byte tokens)
+    for _ in range(10 if quick else 200):
+        L = rng.randrange(1016, 1040)
+        cs = rng.random() < 0.5
+        add(c11_long.gen_grow_on_store(rng, cs, L), cs, "stored line grows to %d" % L)
+        d["grow_on_store"] += 1
+    # ascending sweeps inside one run
+    for _ in range(1 if quick else 8):
+        lo = rng.randrange(1000, 1020)
+        hi = lo + (170 if quick else rng.randrange(150, 420))
+        cs = rng.random() < 0.5
+        add(c11_long.gen_ascending(rng, cs, lo, hi, rng.choice(["irp", "macro"])), cs, "ascending sweep %d..%d in one run" % (lo, hi))
+        d["ascending"] += 1
+        d["ascending_lines"] += hi - lo + 1
+    tree_stream(progs, "long")
+
+    # comment-line bodies (free text) through the token layer model, one assembler run per length
+    cases = []
+    for zone in (c11_long.ZONE1,):
+        for L in zone:
+            for _ in range(1 if quick else 6):
+                cs = rng.random() < 0.5
+                c = tok_long_case(rng, cs, L)
+                if c is not None:
+                    cases.append((c, cs, L))
+    reqs = []
+    for c, cs, L in cases:
+        rq, fewer = tok_requests(c, cs, qdict["argCountWritten"])
+        reqs.append(rq[0])
+    answers = common.driver("c11tok", reqs, timeout=600) if drv_ok else []
+    for (c, cs, L), ans in zip(cases, answers):
+        kv = dict(x.split("=", 1) for x in ans.split() if "=" in x)
+        if "model" not in kv:
+            proof_problems.append("driver c11tok (long): " + ans[:100])
+            continue
+        model, spec = unhx(kv["model"]), unhx(kv["spec"])
+        src = tok_source([c], cs)
+        rc, msg, p, i = asl(bdir, wd, "tl", src, flags=(["-U"] if cs else []), want_i=True)
+        got = (parse_i(i).get(0) or [None])[0] if i is not None else None
+        d["tok_cases"] += 1
+        d["tok_evaluations"] += 1
+        d["longest_delivered"] = max(d["longest_delivered"], len(spec))
+        if len(spec) == L:
+            d["lengths_hit"][L] = d["lengths_hit"].get(L, 0) + 1
+        else:
+            d["off_target"] += 1
+        distinct.add(("long-tok", c["body"][0], tuple(c["args"])))
+        info = dict(tag="tok long L=%d cs=%d" % (L, cs), source=src, asflags="-U" if cs else "", real_tail=repr(got[-60:] if got else got),
+                    model_tail=repr(model[-60:]), spec_tail=repr(spec[-60:]), lengths="real %s model %d spec %d" % (len(got) if got else None, len(model), len(spec)))
+        if rc != 0 or got != spec:
+            info["why"] = "delivered macro line (%s characters) differs from whole-name substitution (SPEC substWhole, %d characters) rc=%s" % (
+                len(got) if got else None, len(spec), rc)
+            spec_fail.append(info)
+        elif got != model:
+            info["why"] = "delivered macro line differs from the model of CompressLine/ExpandLine (Model/MacroCall.lean)"
+            corr_fail.append(info)
+    return d
 
 
 # --------------------------------------------------------------------------
@@ -727,78 +900,96 @@ def run(args):
             dist["tok_cases"] += len(cases)
 
         # ---------------- construct stream
+        dist["tag_tree_programs"] = 0
+        dist["tag_tree_model_eq_spec"] = 0
+        agg = {}
+
+        def tree_stream(progs, label):
+            """construct trees: SPEC expansion (c11exp), tag machine model (c11tag), real asl -P, real asl on the hand expansion"""
+            nonlocal evaluations
+            answers = common.driver("c11exp", [p[1] for p in progs], timeout=1800) if drv_ok else []
+            tag_answers = common.driver("c11tag", [c11_tags.tree_request(p[1], qflags) for p in progs], timeout=1800) if drv_ok else []
+            for k, ((src, enc, hdr, st, cs), ans) in enumerate(zip(progs, answers)):
+                if not ans.startswith("ok"):
+                    proof_problems.append("driver c11exp: %s on %s %d" % (ans[:60], label, k))
+                    continue
+                exp_lines = [unhx(x) for x in ans.split()[1:]]
+                hand = ("\n".join(hdr) + "\n").encode() + b"".join(l + b"\n" for l in exp_lines)
+                flags = ["-U"] if cs else []
+                rc1, m1, p1, i1 = asl(bdir, wd, "c%d" % k, src, flags=flags, want_i=True)
+                rc2, m2, p2, _ = asl(bdir, wd, "h%d" % k, hand, flags=flags)
+                evaluations += 1
+                dist["programs"] += 1
+                dist["programs_cs"] += int(cs)
+                dist["program_lines_expanded"] += len(exp_lines)
+                for kk, v in st.items():
+                    if isinstance(v, int):
+                        agg[kk] = max(agg.get(kk, 0), v) if kk == "maxdepth" else agg.get(kk, 0) + v
+                if "on_expansion" in st:
+                    st["on_expansion"](exp_lines)
+                distinct.add(enc)
+                info = dict(tag="%s %d" % (label, k), source=src, hand_expansion=hand.decode("latin-1"), asflags=" ".join(flags))
+                if "what" in st:
+                    info["class"] = st["what"]
+                c1 = canon_p(p1) if p1 is not None else None
+                c2 = canon_p(p2) if p2 is not None else None
+                if rc2 != 0 or c2 is None:
+                    info["why"] = "the hand expansion does not assemble (generator/spec problem?): rc=%s %s" % (rc2, m2[-400:])
+                    if rc1 != 0:
+                        info["why"] += " | construct program: rc=%s %s" % (rc1, m1[-400:])
+                    spec_fail.append(info)
+                    continue
+                if rc1 != 0 or c1 is None:
+                    info["why"] = "construct program rejected although its hand expansion assembles: rc=%s %s" % (rc1, m1[-400:])
+                    spec_fail.append(info)
+                    continue
+                if c1 != c2:
+                    info["why"] = "code file of the construct program differs from the code file of its hand expansion: %r vs %r" % (
+                        first_cell_diff(c1, c2))
+                    spec_fail.append(info)
+                    continue
+                if i1 is not None:
+                    a = norm_i(i1.split(b"\n"))
+                    b = norm_i([strip_sfx(x) for x in exp_lines])
+                    dist["i_compared"] += 1
+                    if a != b:
+                        info["why"] = "-P macro processor output differs from the expansion text (code files agree)"
+                        d = [j for j in range(min(len(a), len(b))) if a[j] != b[j]][:1]
+                        info["first_diff"] = repr((a[d[0]][-80:], b[d[0]][-80:])) if d else "lengths %d/%d" % (len(a), len(b))
+                        corr_fail.append(info)
+                        continue
+                    # processor layer: the tag machine model on the same program
+                    ta = c11_tags.parse_answer(tag_answers[k]) if k < len(tag_answers) else None
+                    if ta is None:
+                        proof_problems.append("driver c11tag: %s on %s %d" % ((tag_answers[k] if k < len(tag_answers) else "no answer")[:60], label, k))
+                        continue
+                    m = norm_i(ta["lines"])
+                    dist["tag_tree_programs"] += 1
+                    dist["tag_tree_model_eq_spec"] += int(m == b)
+                    if ta["crashed"] or ta["stack"] != 0 or ta["coll"] or m != a:
+                        info["why"] = "tag machine model (Model/Tags.lean) and asl -P output differ (crashed=%s stack=%s coll=%s)" % (
+                            ta["crashed"], ta["stack"], ta["coll"])
+                        d = [j for j in range(min(len(a), len(m))) if a[j] != m[j]][:1]
+                        info["first_diff"] = repr((a[d[0]][-80:], m[d[0]][-80:])) if d else "lengths %d/%d" % (len(a), len(m))
+                        corr_fail.append(info)
+                        continue
+                if len(samples) < 6 and st.get("maxdepth", 0) >= 2 and len(exp_lines) > 6:
+                    samples.append(dict(kind="program", source=src[:900], expansion_lines=len(exp_lines), code_bytes=sum(len(x[4]) for x in c1)))
+
         rng = common.rng_for(args.seed, "C11/prog")
         progs = []
         for k in range(nprog):
             cs = (k % 5 == 4)
             src, enc, hdr, st = gen_program(rng, cs)
             progs.append((src, enc, hdr, st, cs))
-        answers = common.driver("c11exp", [p[1] for p in progs], timeout=1800) if drv_ok else []
-        tag_answers = common.driver("c11tag", [c11_tags.tree_request(p[1], qflags) for p in progs], timeout=1800) if drv_ok else []
-        dist["tag_tree_programs"] = 0
-        dist["tag_tree_model_eq_spec"] = 0
-        agg = {}
-        for k, ((src, enc, hdr, st, cs), ans) in enumerate(zip(progs, answers)):
-            if not ans.startswith("ok"):
-                proof_problems.append("driver c11exp: %s on program %d" % (ans[:60], k))
-                continue
-            exp_lines = [unhx(x) for x in ans.split()[1:]]
-            hand = ("\n".join(hdr) + "\n").encode() + b"".join(l + b"\n" for l in exp_lines)
-            flags = ["-U"] if cs else []
-            rc1, m1, p1, i1 = asl(bdir, wd, "c%d" % k, src, flags=flags, want_i=True)
-            rc2, m2, p2, _ = asl(bdir, wd, "h%d" % k, hand, flags=flags)
-            evaluations += 1
-            dist["programs"] += 1
-            dist["programs_cs"] += int(cs)
-            dist["program_lines_expanded"] += len(exp_lines)
-            for kk, v in st.items():
-                agg[kk] = max(agg.get(kk, 0), v) if kk == "maxdepth" else agg.get(kk, 0) + v
-            distinct.add(enc)
-            info = dict(tag="prog %d" % k, source=src, hand_expansion=hand.decode("latin-1"), asflags=" ".join(flags))
-            c1 = canon_p(p1) if p1 is not None else None
-            c2 = canon_p(p2) if p2 is not None else None
-            if rc2 != 0 or c2 is None:
-                info["why"] = "the hand expansion does not assemble (generator/spec problem?): rc=%s %s" % (rc2, m2[-400:])
-                if rc1 != 0:
-                    info["why"] += " | construct program: rc=%s %s" % (rc1, m1[-400:])
-                spec_fail.append(info)
-                continue
-            if rc1 != 0 or c1 is None:
-                info["why"] = "construct program rejected although its hand expansion assembles: rc=%s %s" % (rc1, m1[-400:])
-                spec_fail.append(info)
-                continue
-            if c1 != c2:
-                info["why"] = "code file of the construct program differs from the code file of its hand expansion: %r vs %r" % (c1[:3], c2[:3])
-                spec_fail.append(info)
-                continue
-            if i1 is not None:
-                a = norm_i(i1.split(b"\n"))
-                b = norm_i([strip_sfx(x) for x in exp_lines])
-                dist["i_compared"] += 1
-                if a != b:
-                    info["why"] = "-P macro processor output differs from the expansion text (code files agree)"
-                    d = [j for j in range(min(len(a), len(b))) if a[j] != b[j]][:1]
-                    info["first_diff"] = repr((a[d[0]], b[d[0]])) if d else "lengths %d/%d" % (len(a), len(b))
-                    corr_fail.append(info)
-                    continue
-                # processor layer: the tag machine model on the same program
-                ta = c11_tags.parse_answer(tag_answers[k]) if k < len(tag_answers) else None
-                if ta is None:
-                    proof_problems.append("driver c11tag: %s on program %d" % ((tag_answers[k] if k < len(tag_answers) else "no answer")[:60], k))
-                    continue
-                m = norm_i(ta["lines"])
-                dist["tag_tree_programs"] += 1
-                dist["tag_tree_model_eq_spec"] += int(m == b)
-                if ta["crashed"] or ta["stack"] != 0 or ta["coll"] or m != a:
-                    info["why"] = "tag machine model (Model/Tags.lean) and asl -P output differ (crashed=%s stack=%s coll=%s)" % (
-                        ta["crashed"], ta["stack"], ta["coll"])
-                    d = [j for j in range(min(len(a), len(m))) if a[j] != m[j]][:1]
-                    info["first_diff"] = repr((a[d[0]], m[d[0]])) if d else "lengths %d/%d" % (len(a), len(m))
-                    corr_fail.append(info)
-                    continue
-            if len(samples) < 6 and st["maxdepth"] >= 2 and len(exp_lines) > 6:
-                samples.append(dict(kind="program", source=src[:900], expansion_lines=len(exp_lines), code_bytes=sum(len(x[4]) for x in c1)))
+        tree_stream(progs, "prog")
         dist["constructs"] = agg
+
+        # ---------------- long delivered lines (buffer sizes of the line buffer and the lines seen before must not matter)
+        t0 = time.time()
+        dist["long"] = long_stream(args, tree_stream, asl, bdir, wd, drv_ok, qdict, spec_fail, corr_fail, proof_problems, samples, distinct)
+        dist["long"]["wall_s"] = round(time.time() - t0, 1)
+        evaluations += dist["long"]["tok_evaluations"]
 
         # ---------------- INCLUDE / BINCLUDE / WHILE (hand expansion by the harness)
         rng = common.rng_for(args.seed, "C11/misc")
@@ -819,12 +1010,26 @@ def run(args):
         evaluations += ev2
         distinct |= distinct2
 
+        # ---------------- bookkeeping of expansions: recursion counter, local-symbol handles (many calls, control parameters, chains, recursion)
+        t0 = time.time()
+        ev3, distinct3 = c11_nest.run_stream(args, asl, canon_p, bdir, wd, drv_ok, dist, spec_fail, corr_fail, proof_problems, samples)
+        evaluations += ev3
+        distinct |= distinct3
+        if "nest" in dist:
+            dist["nest"]["wall_s"] = round(time.time() - t0, 1)
+
     res.coverage = common.proof_coverage(audit, "C11", [
         "translate/tables.py MacroConsts (ArgCntMax, implicit parameter names via compiled dumper over asmdef.h)",
         "correspondence: real asl -P output vs Model/MacroCall.lean on generated macro bodies (differential test)",
         "construct layer: SPEC expand is executable and run against the real asl; the tag machine (Model/Tags.lean) is proved to refine it "
         "(Props/C11_Tags.lean: C11_tags_refine, hypotheses WFB) and is run against the real asl -P output (driver c11tag)",
-        "quirk flags of the tag machine model (IRPC \"\" once, EXITM-in-IRP crash, ARGCOUNT = written arguments, SHIFT leaves the last token, ALLARGS after SHIFT skips empty arguments) are probed on the real binary each run"])
+        "quirk flags of the tag machine model (IRPC \"\" once, EXITM-in-IRP crash, ARGCOUNT = written arguments, SHIFT leaves the last token, ALLARGS after SHIFT skips empty arguments) are probed on the real binary each run",
+        "bookkeeping of expansions (Model/MacroNest.lean: UseCounter vs NESTMAX, local-symbol handles, pass loop; Props/C11_Nest.lean): the model is run "
+        "against the real asl (driver c11nest), the quirk flag emptyPops (the Restorer pops a handle the tag never pushed) is probed on the real binary; "
+        "SPEC Spec/MacroNest.lean is executable and judges the real output; a refinement theorem model = spec for all programs is NOT proved "
+        "(proved: counter = open expansions in every reachable state, refusal iff above NESTMAX, handle stack balanced without the quirk)",
+        "the line buffer (as_dynstr, ReplaceToken's growth rule) is not modelled: the token layer model works on unbounded lists, which is what the "
+        "real code does on the unchanged tree for every length the long-line stream generates"])
     res.coverage.update(
         evaluations=evaluations, distinct_nontrivial=len(distinct),
         rule="token stream: one delivered body line per evaluation (0..40 parameters, names that are substrings of identifiers, \\name\\ forms, arguments that are "
@@ -832,14 +1037,25 @@ def run(args):
              "construct stream: one program per evaluation (MACRO positional/keyword/default/excess, REPT 0..40, IRP, IRPN 1..4 ragged, IRPC, EXITM, nesting <= 3, "
              "private labels vs GLOBALSYMBOLS), distinct by construct tree - every such program also through the tag machine model; "
              "tags flat stream: one generated source per evaluation (SHIFT, EXITM, parameters in nested headers, macro calls in bodies, "
-             "macros defined in a repetition), distinct by source; SHIFT cases vs the manual's rule; misc: INCLUDE/BINCLUDE/WHILE programs",
+             "macros defined in a repetition), distinct by source; SHIFT cases vs the manual's rule; misc: INCLUDE/BINCLUDE/WHILE programs; "
+             "long stream: one construct program per evaluation whose delivered line has a chosen length (sweeps 1016..1032 with nothing long seen before, "
+             "1144..1160 after a physical line of 1023..1149 characters, random lengths/histories, stored lines that grow by one-letter names, ascending "
+             "sweeps in one run; MACRO positional/keyword/default/ALLARGS, IRP, IRPN, REPT/IRP/IRPC/MACRO inside a macro), distinct by construct tree; "
+             "long comment-line bodies through the token model; nest stream: one program per evaluation (1..620 calls of macros with every control "
+             "parameter, one and two passes, call chains up to depth 300, bounded recursion around NESTMAX, unbounded recursion, empty bodies), distinct by source",
         samples=samples, distribution=dist)
     res.assumptions = ["the hand expansion of private labels renames them with a suffix per expansion instance (construct id, iteration)",
                        "in case-insensitive mode the harness upper-cases arguments outside quotes before handing them to the model (UpString is not modelled)",
                        "INCLUDE/BINCLUDE/WHILE hand expansions are produced by the harness, not by the Lean spec",
                        "tag machine model: a source line is already split into statement kind and text fields; the token layer is applied per field "
                        "(a substitution that changes the statement kind or the argument count of a line is outside the model); conditional assembly, "
-                       "local-symbol handles, WHILE and INCLUDE nesting are outside the model"]
+                       "local-symbol handles, WHILE and INCLUDE nesting are outside the model",
+                       "nest stream: programs are reduced to lines that emit a byte, define/use a label, call a macro with one numeric argument, or repeat a body "
+                       "(Spec/MacroNest.lean BLine); the rendering to source text (control parameters, INTLABEL/__LABEL__, IF arg>0 for bounded recursion, "
+                       "REPT/IRP/IRPC headers) is done by the harness; the spec looks labels up along the chain of open expansions (the manual does not say "
+                       "whether a called macro sees its caller's private labels; the generated programs never depend on it)",
+                       "nest stream: an error message whose position prefix fills asl's 1024-byte buffer loses its text; such a line is counted as the refusal "
+                       "(the only error that happens that deep in the generated programs)"]
     return common.conclude(res, proof_problems, spec_fail, corr_fail, evaluations)
 
 
